@@ -51,7 +51,7 @@ try:
     print('test suite on the variant:', r.stdout.strip().splitlines()[-1])
     bad = 0
     for c in ids:
-        out = subprocess.run(['/verif/bin/check', c], env=dict(os.environ, VERIF_REPO=tmp), capture_output=True, text=True).stdout
+        out = subprocess.run(['/verif/bin/check', c], env=dict(os.environ, VERIF_REPO=tmp, VERIF_NO_EVIDENCE='1'), capture_output=True, text=True).stdout
         lines = [l for l in out.splitlines() if l.startswith(('VIOLATION', 'SELFTEST-FAILED')) or 'exit=' in l]
         bad += sum(1 for l in lines if l.startswith(('VIOLATION', 'SELFTEST-FAILED')))
         print('\n'.join(l[:200] for l in lines))
